@@ -184,7 +184,15 @@ def _neutral_edits(report, sc, ybin, inproc, name, g, pkg, base, rng, quick, see
     # spelling (shorthand vs expanded, primitive aliases): rendered with a different coin
     edits.append(("spelling", copy.deepcopy(pkg)))
     if quick:
-        edits = rng.sample(edits, 3)
+        edits = rng.sample(edits, 2)
+    # block-style YAML, and a comment line in front of every line of it (definitions, fields, steps, enum values, array
+    # dimensions, union cases, items/keys/values): documentation never reaches the schema
+    p = copy.deepcopy(pkg)
+    p.block = True
+    edits.append(("block-style", p))
+    p = copy.deepcopy(pkg)
+    p.block, p.comment_lines = True, "doc"
+    edits.append(("comments-everywhere", p))
     for ename, p2 in edits:
         root = sc.path(f"{name}-{ename}")
         exp = 0.9 if ename == "spelling" else 0.25
